@@ -67,10 +67,15 @@ def gen_tree(rng, depth):
     if kind == "leaf" or depth == 0:
         return ("leaf",)
     n = rng.randint(0, 3)
-    supplied = [rng.choice(TYPES)(v=rng.randint(1, 99)) for _ in range(n)]
-    disp = [rng.choice(TYPES)(v=rng.randint(100, 199)) for _ in range(rng.randint(0, 2))] if kind == "adisp" else []
+
+    def val(lo, hi):
+        # half of the values come from a two-element domain: equal-but-not-identical instances (of one type, in one block or
+        # in nested blocks) are then common - "the instance supplied by the innermost block" is an identity, not an equality
+        return rng.choice((1, 1, 2, rng.randint(lo, hi)))
+    supplied = [rng.choice(TYPES)(v=val(1, 99)) for _ in range(n)]
+    disp = [rng.choice(TYPES)(v=val(100, 199)) for _ in range(rng.randint(0, 2))] if kind == "adisp" else []
     if kind in ("prepared", "aprepared"):      # scope object made first, entered later inside a further update block
-        disp = [rng.choice(TYPES)(v=rng.randint(200, 299)) for _ in range(rng.randint(1, 2))]
+        disp = [rng.choice(TYPES)(v=val(200, 299)) for _ in range(rng.randint(1, 2))]
     kids = [gen_tree(rng, depth - 1) for _ in range(rng.randint(1, 2))]
     return (kind, supplied, disp, kids)
 
